@@ -83,6 +83,20 @@ Proof.
   intros r Hr. vm_compute in Hr. in_cases Hr; right; cbn; lia.
 Qed.
 
+(* the hypotheses of morphism_transport hold for it, and the way back into another structure copies A and B *)
+Lemma r_seq_transport_ok : forall i, In (Some i) r_seq ->
+  focused (i_sa i) 8 (footprint (i_sa i)) /\ transports (i_sa i) (footprint (i_sa i)) /\
+  focused (i_ta i) 8 (footprint (i_ta i)).
+Proof.
+  intros i H. vm_compute in H.
+  in_cases H; (split; [exact (field_focused _)|]; split; [exact (field_transports _)|exact (field_focused _)]).
+Qed.
+
+Lemma r_seq_transport_runs : exists w1 w2,
+  morphism_forward r_seq w_start = Ok w1 /\
+  morphism_inverse r_seq (mkTwo (repeat 9%Z 16) (ps w_start) (mt w1) (pt w1)) = Ok w2 /\ ms w2 = ms w_start.
+Proof. eexists. eexists. split; [vm_compute; reflexivity|]. split; vm_compute; reflexivity. Qed.
+
 (* a shape2 over KAB: the component lenses are focused on disjoint foci, and Put returns *)
 Lemma shape2_hyps_ok : exists lens,
   ForShape2 KAB t_int64 t_int64 ["A"; "B"]%string = Ok lens /\
